@@ -2012,6 +2012,36 @@ impl Analyzable for Expression
 	}
 }
 
+fn is_string_for_bytes(
+	value_type: &ValueType,
+	member_type: Option<Poisonable<ValueType>>,
+) -> bool
+{
+	match (value_type, member_type)
+	{
+		(
+			ValueType::Array {
+				element_type: a,
+				length: la,
+			},
+			Some(Ok(ValueType::Array {
+				element_type: b,
+				length: lb,
+			})),
+		) =>
+		{
+			*la == lb
+				&& match (a.as_ref(), b.as_ref())
+				{
+					(ValueType::Char8, ValueType::Uint8) => true,
+					(ValueType::Uint8, ValueType::Char8) => true,
+					_ => false,
+				}
+		}
+		_ => false,
+	}
+}
+
 fn analyze_structural(
 	members: Vec<MemberExpression>,
 	structural_type: Poisonable<ValueType>,
@@ -2052,6 +2082,24 @@ fn analyze_structural(
 					};
 					typer.contextual_type = contextual_type;
 					let expression = member.expression.analyze(typer);
+					// The value must have the declared type of the member
+					// (a string literal may initialize an array of bytes).
+					let expression = match (&name, expression.value_type())
+					{
+						(Ok(name), Some(Ok(vt)))
+							if !is_string_for_bytes(&vt, typer.get_symbol(name)) =>
+						{
+							match typer.put_symbol(&name.inferred(), Some(Ok(vt)))
+							{
+								Ok(()) => expression,
+								Err(error) =>
+								{
+									Expression::Poison(Poison::Error(error))
+								}
+							}
+						}
+						_ => expression,
+					};
 					MemberExpression {
 						name,
 						offset,
